@@ -137,6 +137,11 @@ def classify_parser(cg, f, expr, depth=0, seen=None):
             over += [unparse(n)[:60] for n in touched]
             return 'modified', 'XMLParser(**%s) where %s is a per-request ' \
                 'copy of parser_kwargs with overrides: %s' % (nm, nm, over)
+    if isinstance(expr, ast.Call) and call_name(expr) == 'XMLParser' and \
+            'parser_kwargs' in unparse(expr):
+        # XMLParser(**dict(self.parser_kwargs, k=v)), {**kwargs, k: v}, ...
+        return 'modified', '%s derives the options from parser_kwargs but ' \
+            'overrides some of them' % unparse(expr)[:80]
     if isinstance(expr, ast.Name):
         vals = local_assignments(f.node, expr.id)
         params = [a.arg for a in f.node.args.args + f.node.args.kwonlyargs]
@@ -260,6 +265,84 @@ def classify_parser(cg, f, expr, depth=0, seen=None):
                     return 'configured', 'instance attribute %s' % \
                         unparse(expr)
     return 'unknown', unparse(expr)
+
+
+# ------------------------------------------------------------------- R7
+def _literal_hardened(expr):
+    """XMLParser(k=<const>, ...) with resolve_entities=False spelled out and
+    no other option weakening lxml's defaults."""
+    if not (isinstance(expr, ast.Call) and call_name(expr) == 'XMLParser' and
+            not expr.args):
+        return False, 'not an XMLParser(...) call'
+    kws = {}
+    for k in expr.keywords:
+        if k.arg is None or not isinstance(k.value, ast.Constant):
+            return False, 'option %s is not a literal' % (k.arg or '**')
+        kws[k.arg] = k.value.value
+    if kws.get('resolve_entities', 'internal') is not False:
+        return False, 'resolve_entities is not False (lxml default expands ' \
+                      'internal entities)'
+    for k, v in SAFE_DEFAULTS.items():
+        if k in kws and kws[k] != v and k != 'remove_pis':
+            return False, '%s=%r' % (k, kws[k])
+    return True, 'literal options %s' % sorted(kws.items())
+
+
+def rule_r7(prog, res):
+    res.rule('R7', 'value readers that parse client text as XML (AnyXml in '
+             'attributes, tag bodies, non-XML protocols) use a hardened '
+             'parser as well')
+    import re
+    n = 0
+    for rel in ('spyne/protocol/_inbase.py', 'spyne/protocol/xml.py',
+                'spyne/protocol/dictdoc/_base.py',
+                'spyne/protocol/dictdoc/simple.py',
+                'spyne/protocol/dictdoc/hier.py', 'spyne/protocol/http.py'):
+        mod = prog.modules.get(rel) or next(
+            (m for m in prog.modules.values() if m.relpath == rel), None)
+        if mod is None:
+            continue
+        for f in mod.functions.values():
+            if not re.search(r'_from_(bytes|unicode|string|element)$',
+                             f.name):
+                continue
+            for call in calls_in(f.node):
+                if not is_parse_call(f, call):
+                    continue
+                d = dotted(call.func.value) if isinstance(
+                    call.func, ast.Attribute) else ''
+                if d and (d == 'html' or d.endswith('.html')):
+                    continue    # HTML parser: no DTD, no entity declarations
+                n += 1
+                arg = parser_arg(call)
+                vals = [arg]
+                if isinstance(arg, ast.Name):
+                    vals = local_assignments(f.node, arg.id) or [None]
+                where = '%s:%d' % (rel, call.lineno)
+                why = None
+                for v in vals:
+                    if v is None or (isinstance(v, ast.Constant) and
+                                     v.value is None):
+                        why = 'the default lxml parser'
+                        break
+                    if is_configured_parser(v):
+                        continue
+                    ok_, w_ = _literal_hardened(v)
+                    if not ok_:
+                        why = w_
+                        break
+                res.ob('R7', where, '%s: %s' % (f.qualname,
+                                                unparse(call)[:70]),
+                       'VIOLATED' if why else 'ok')
+                if why:
+                    res.finding('R7', '%s|%s|value-parser' % (
+                        f.qualname, unparse(call.func)), where, '%s parses '
+                        'text taken from the request with %s: a DOCTYPE '
+                        'inside that text declares entities that are '
+                        'expanded and handed to user code, although the '
+                        'outer document was parsed safely' % (f.qualname,
+                                                              why))
+    res.floor('R7', 'XML parses in value readers', n, 1)
 
 
 def run(prog, res, tier):
@@ -684,6 +767,7 @@ def _tail(prog, res, tier):
     res.run_rule(rule_clean_tree, prog, res)
     res.run_rule(rule_r4, prog, res)
     res.run_rule(rule_option_binding, prog, res)
+    res.run_rule(rule_r7, prog, res)
     # subclasses forward *args/**kwargs unchanged
     xmldoc = prog.cls('spyne.protocol.xml:XmlDocument')
     n_sub = 0
@@ -745,6 +829,34 @@ _S = 'spyne/protocol/soap/soap11.py'
 _M = 'spyne/protocol/soap/mime.py'
 
 MUTANTS = [
+    Mutant('huge-tree-second-chance', 'R1', 'fire', 'spyne/protocol/xml.py',
+           in_func('XmlDocument.create_in_document',
+                   "            except ValueError:\n",
+                   "            except XMLSyntaxError as e:\n"
+                   "                if 'XML_PARSE_HUGE' not in str(e):\n"
+                   "                    raise\n"
+                   "                ctx.in_document = etree.fromstring(string, "
+                   "parser=XMLParser(\n"
+                   "                    **dict(self.parser_kwargs, "
+                   "huge_tree=True)))\n"
+                   "            except ValueError:\n"), 'modified-options'),
+    Mutant('anyxml-value-default-parser', 'R7', 'fire',
+           'spyne/protocol/_inbase.py',
+           in_func('InProtocolBase.any_xml_from_bytes',
+                   "return etree.fromstring(string, parser=parser)",
+                   "return etree.fromstring(string)"), 'value-parser'),
+    Mutant('anyxml-value-parser-entities-on', 'R7', 'fire',
+           'spyne/protocol/_inbase.py',
+           in_func('InProtocolBase.any_xml_from_bytes',
+                   "resolve_entities=False, ", ""), 'value-parser'),
+    Mutant('anyxml-text-reparsed-in-element-reader', 'R7', 'fire',
+           'spyne/protocol/xml.py',
+           in_func('XmlDocument.xml_from_element',
+                   "            retval = element.getchildren()[0]\n",
+                   "            retval = element.getchildren()[0]\n"
+                   "        elif element.text:\n"
+                   "            retval = etree.fromstring(element.text)\n"),
+           'value-parser'),
     Mutant('comments-kept-by-default', 'R6', 'fire', _X,
            lambda src: src.replace("            remove_comments=True,\n",
                                    "            remove_comments=False,\n"),
